@@ -24,7 +24,8 @@ CAVals == [ method : {"private_key_jwt", "client_secret_basic", "none", "client_
             key    : {"registered", "other_client", "unregistered"},
             iss    : {"client", "other", "absent"},
             sub    : {"client", "other", "absent"},
-            aud    : {"token_url", "other", "list_with_token_url", "list_without", "absent"},
+            \* child_path / with_query / other_case: URLs that merely start with, extend or re-spell the token URL -- "contains the token URL" is equality of one element
+            aud    : {"token_url", "other", "list_with_token_url", "list_without", "absent", "child_path", "with_query", "list_child_path"},
             exp    : {"future", "past", "absent", "string"},
             jti    : {"fresh", "absent"} ]
 CAGood == [method |-> "private_key_jwt", regalg |-> "RS256", alg |-> "registered", kid |-> "right", key |-> "registered",
@@ -40,7 +41,7 @@ CARows == { [tbl |-> "CA", f |-> r, accept |-> CAAccept(r)] : r \in {x \in CAVal
 BGVals == [ key    : {"registered", "other_issuer", "unregistered"},
             kid    : {"right", "absent", "unknown"},
             who    : {"registered", "other_subject", "no_iss", "no_sub"},
-            aud    : {"token_url", "other", "list_with_token_url", "absent"},
+            aud    : {"token_url", "other", "list_with_token_url", "absent", "child_path", "with_query", "list_child_path"},
             exp    : {"future", "past", "beyond_max", "absent"},
             nbf    : {"absent", "past", "future"},
             iat    : {"present", "absent"},
